@@ -79,7 +79,9 @@ func (m *C02Monitor) AfterPass(r *Runner, pv *PassView) error {
 	lastReadRV := map[kubesim.Key]string{}
 	for _, c := range pv.Calls {
 		if c.Actor == "pko" && c.Verb == "get" && c.Key.Group != engine.PKOGroup {
-			lastReadMissing[c.Key] = c.Resp == nil
+			// only an answer that was true when given counts as "observed absent": a label-selected cache not showing an
+			// object that exists is no observation of absence
+			lastReadMissing[c.Key] = c.Resp == nil && r.StateAt(c.Key, c.Seq-1) == nil
 			if c.Resp != nil {
 				lastReadRV[c.Key] = engine.RVOf(c.Resp)
 			}
